@@ -27,6 +27,7 @@ var (
 	tyB    = u.TypeOf("B")
 	tyIA   = u.TypeOf("IA")
 	tyNS   = u.TypeOf("NS")
+	tyNS2  = u.TypeOf("NS2")
 	tyErr  = u.TypeOf("error")
 	tyInt  = u.TypeOf("int")
 	tyIn   = reflect.TypeOf(dig.In{})
@@ -138,6 +139,17 @@ func resultShapes(quick bool) []shape {
 		{"Out{F error}", []reflect.Type{st(emb(tyOut, ""), sf("F", tyErr, ""))}, false},
 		{"Out{unexported}", []reflect.Type{st(emb(tyOut, ""), sf("F", tyA, ""), sf("x", tyA, ""))}, false},
 		{"Out{A;A}", []reflect.Type{st(emb(tyOut, ""), sf("F", tyA, ""), sf("G", tyA, ""))}, false},
+		// whole-group results (what a group decorator returns) of every slice flavour
+		{"Out{F NS `group:g`}", []reflect.Type{st(emb(tyOut, ""), sf("F", tyNS, `group:"g"`))}, false},
+		{"Out{F NS2 `group:g`}", []reflect.Type{st(emb(tyOut, ""), sf("F", tyNS2, `group:"g"`))}, false},
+		{"Out{F [][]A `group:g`}", []reflect.Type{st(emb(tyOut, ""), sf("F", reflect.SliceOf(reflect.SliceOf(tyA)), `group:"g"`))}, false},
+		{"Out{F [][]A `group:g,flatten`}", []reflect.Type{st(emb(tyOut, ""), sf("F", reflect.SliceOf(reflect.SliceOf(tyA)), `group:"g,flatten"`))}, false},
+		{"Out{F []NS `group:g,flatten`}", []reflect.Type{st(emb(tyOut, ""), sf("F", reflect.SliceOf(tyNS), `group:"g,flatten"`))}, false},
+		{"Out{F []IA `group:g`}", []reflect.Type{st(emb(tyOut, ""), sf("F", reflect.SliceOf(tyIA), `group:"g"`))}, false},
+		{"Out{G Out{F []A `group:g`}}", []reflect.Type{st(emb(tyOut, ""), sf("G", st(emb(tyOut, ""), sf("F", reflect.SliceOf(tyA), `group:"g"`)), ""))}, false},
+		{"Out{G Out{F A `group:g`}}", []reflect.Type{st(emb(tyOut, ""), sf("G", st(emb(tyOut, ""), sf("F", tyA, `group:"g"`)), ""))}, false},
+		{"Out{G Out{F int `group:g`}}", []reflect.Type{st(emb(tyOut, ""), sf("G", st(emb(tyOut, ""), sf("F", tyInt, `group:"g"`)), ""))}, false},
+		{"Out{E{Out;F A `group:g`}}", []reflect.Type{st(emb(tyOut, ""), sf("G", st(emb(st(emb(tyOut, "")), ""), sf("F", tyA, `group:"g"`)), ""))}, false},
 	}
 	for _, tag := range fieldTags {
 		s = append(s, shape{"Out{F A `" + tag + "`}", []reflect.Type{st(emb(tyOut, ""), sf("F", tyA, tag))}, false})
@@ -236,8 +248,19 @@ func c14Contexts() [][]Op {
 
 // probes run after every input (and used to compare a rejected input with the
 // untouched context).
+func rawInvoke(scope int, desc string, in ...reflect.Type) Op {
+	return Op{Kind: h.OpInvoke, Scope: scope, RawDesc: desc, Raw: func(*h.Run) (interface{}, []dig.ProvideOption) { return zeroFunc(in, nil, false), nil }}
+}
+
 func c14Probes() []Op {
-	return []Op{invoke(0, iA), invoke(0, iB), invoke(0, iG), invoke(0, iO), invoke(1, iA), provide(0, pA2), provide(0, pDd), {Kind: h.OpVisualize}, {Kind: h.OpString, Scope: 0}, {Kind: h.OpString, Scope: 1}}
+	grp := func(t reflect.Type, tag string) reflect.Type { return st(emb(tyIn, ""), sf("F", t, tag)) }
+	return []Op{
+		rawInvoke(0, "invoke func(In{F NS `group:g`})", grp(tyNS, `group:"g"`)),
+		rawInvoke(1, "invoke func(In{F NS2 `group:g`})", grp(tyNS2, `group:"g"`)),
+		rawInvoke(0, "invoke func(In{F NS2 `group:g,soft`})", grp(tyNS2, `group:"g,soft"`)),
+		rawInvoke(0, "invoke func(In{F [][]A `group:g`})", grp(reflect.SliceOf(reflect.SliceOf(tyA)), `group:"g"`)),
+		rawInvoke(0, "invoke func(In{F []IA `group:g`})", grp(reflect.SliceOf(tyIA), `group:"g"`)),
+		invoke(0, iA), invoke(0, iB), invoke(0, iG), invoke(0, iO), invoke(1, iA), provide(0, pA2), provide(0, pDd), {Kind: h.OpVisualize}, {Kind: h.OpString, Scope: 0}, {Kind: h.OpString, Scope: 1}}
 }
 
 type c14Input struct {
